@@ -38,6 +38,60 @@ CLAIMS = {
         note=ASSUME + "Assumed: walkdir reports faults as Err items and continues. Not decided: which entries survive a "
              "fault at a given position of a concrete tree.",
         ref="4 C20"),
+
+    "C01": dict(
+        technique="static analysis: THIR case-table evaluation of the encoder (emission table) + regex algebra on the emitted text (language equality with reference, flag typestate)",
+        text="The encoder is a syntax-directed translation; conformance follows by structural induction from finitely many "
+             "obligations that are decided on the text it emits in every case (grouping x context x position x token "
+             "shape): leaf languages (separator-free, right length, literals only through regex::escape under an explicit "
+             "flag), tree-wildcard fragment = reference language R(left, right, rooted) over {SEP, NL, OTHER}, classes "
+             "compiled case-sensitively, every `.` under dot-all, alternation = union of all branches, repetition = "
+             "body{m,n}, anchoring, and both Program impls match with their own program. Necessary conditions covering "
+             "the whole mechanism; whole-expression language equality is not computed.",
+        note=ASSUME + "Assumed: regex crate semantics; the nom grammar delivers the tokens the text denotes (only its "
+             "literal/escape sets are decided, in C18). Known finding: rooted tree wildcard in first position (pinned by an existing test).",
+        ref="4 C01"),
+    "C04": dict(
+        technique="static analysis: emission table of the encoder + regex algebra (group count / content), writer-reader table agreement, THIR evaluation of the capture indexers",
+        text="Decides the positional correspondence of regex groups and capturing tokens for every case of the emission "
+             "table: writer set = is_capturing set, exactly one capturing group per capturing top-level token, none nested, "
+             "separator-free content for ?,*,$,classes, complete components for tree wildcards, anchoring (capture 0 = whole "
+             "path), Glob::captures enumerates is_capturing tokens 1..n, owned and borrowed matched text index alike.",
+        note=ASSUME + "Assumed: regex group numbering and leftmost-first semantics. Not decided: order/non-overlap and "
+             "between-capture text. Known finding: rooted first tree wildcard captures half a component (pinned by a test).",
+        ref="4 C04"),
+    "C07": dict(
+        technique="static analysis: THIR case-table of the context update (homomorphism equation) + emission table for branches + who-may-call for any",
+        text="Decides the three finite obligations from which the composition laws follow by induction: the context "
+             "passed to a nested branch preserves (has-left, has-right) over all 5x4 inputs and both branch kinds; "
+             "alternation/repetition/concatenation arms are a homomorphism (language-level comparison with holes); "
+             "token::any builds one alternation of all inputs in order and crate::any compiles that same tree.",
+        note=ASSUME + "Assumed: regex semantics, C01.tree. Not decided: language equality of concrete expression pairs.",
+        ref="4 C07"),
+    "C09": dict(
+        technique="static analysis: THIR case-table evaluation (truth tables, verdict functions, sequencer on all child lists up to a bound)",
+        text="NARROW: the soundness of the exhaustiveness fold is not decidable in this family and is known to be violated "
+             "(`**/{a}`); decided are the finite parts a false `always` can come from: trivalent tables, verdict functions, "
+             "admission predicate and maximal-suffix selection on every child list up to length 3 (quick) / 4 (thorough), "
+             "repetition guard, discarded-terms branch, identical delegation in Glob and Any.",
+        note=ASSUME + "The central behavioural law is NOT decided. Assumed: C10 tables.",
+        ref="4 C09"),
+    "C10": dict(
+        technique="static analysis: THIR case-table evaluation against a model-derived reference (termination algebra, finalisation, leaf terms, fold operators, variance shapes)",
+        text="Decides the finite algebra the depth analysis is composed from: 25-cell termination table vs a reference "
+             "computed from an edge model, finalisation as containment, depth terms of all leaf kinds, the nine VarianceFold "
+             "impls and the BranchKind dispatcher (exact trait selection through rustc's monomorphic resolution), result "
+             "shapes of conjunction/disjunction.",
+        note=ASSUME + "Not decided: arithmetic over natural ranges, hence the containment law itself.",
+        ref="4 C10"),
+    "C12": dict(
+        technique="static analysis: THIR case-tables (rooting predicate, fold operators, sequencers) + emission table (initial rooting leaves inside SEP.Sigma*)",
+        text="Decides: rooting leaves = {separator, rooted tree wildcard}; has_root folds with or/certainty and weakens "
+             "optional repetitions; Starting selects first / all children; every rooting leaf emitted at an initial position "
+             "only matches text beginning with a separator; semantic literal iff text is `.` or `..`; "
+             "has_semantic_literals = any over literals().",
+        note=ASSUME + "Not decided: Token::literals/components pipelines; `never sometimes` is C06's clause.",
+        ref="4 C12"),
 }
 
 NA_DEFAULT = "check not built yet (work in progress; see DESIGN.md section 4 for the planned rules)"
